@@ -149,8 +149,7 @@ pub fn run(rep: &mut Report) {
             rep.generated("P32E2 directed inputs (integers / half-integers +-2ulp, structured bits)", 600_000, directed32, |&a, l| unary::<P32E2>(a, &[0, 1, 2, 3, 4], l));
             let off = rep.cfg.seed % 1024;
             rep.lattice("P32E2 every 1024th pattern (offset = seed mod 1024) x 5 functions (exact oracle)", 1 << 22, move |i, l| unary::<P32E2>(i * 1024 + off, &[0, 1, 2, 3, 4], l));
-            let off = rep.cfg.seed % 16;
-            rep.lattice("P32E2 every 16th pattern (offset = seed mod 16) x 5 functions (fast oracle)", 1 << 28, move |i, l| unary_fast::<P32E2>(i * 16 + off, l));
+            rep.exhaustive("P32E2 all 2^32 patterns x 5 functions (fast oracle)", 1 << 32, |i, l| unary_fast::<P32E2>(i, l));
             rep.exhaustive("P16E1 all inputs again with the fast oracle (oracle cross-check)", 1 << 16, |i, l| unary_fast::<P16E1>(i, l));
         }
         Tier::Thorough => {
